@@ -1,1 +1,595 @@
-//! C13: not implemented yet.
+//! C13 — NTS cookies are used once, oldest first, and never hoarded.
+//!
+//! Part A (E-SEQ on `CookieStash` alone): (A1) breadth-first search over the ring states
+//! `(read, valid)` to fixpoint, every operation applied at every state; (A2) every
+//! operation sequence up to a length over {get, store} and over {get, store 0 B, store
+//! 9 B, store 1024 B}. Every step is compared with a FIFO queue of capacity 8 that keeps
+//! the newest entries.
+//!
+//! Part B (E-SEQ through the real `NtpSource`): initial fill 1..=8 x every sequence of
+//! polls where each poll's answer is one of {lost, the real server's answer, a
+//! harness-built authenticated answer carrying k = 0..=9 uniquely tagged cookies of a
+//! size class}. Every emitted request is parsed at byte level by the harness.
+//!
+//! Oracle (from the statement): each cookie is sent in at most one request; the cookie
+//! sent is the oldest one held; after every event the stash holds exactly the newest
+//! <= 8 undelivered cookies in arrival order; a request asks for
+//! `placeholders + 1 == min(missing, cap)` new cookies where `missing = 8 - held after
+//! taking the one being sent` and `cap` may depend only on what determines the packet
+//! size (protocol version and the length of the cookie being sent), is non-increasing
+//! in that length, and never bites while the full request would stay below half of the
+//! 1024-byte send buffer.
+use std::collections::{BTreeMap, BTreeSet, HashSet, VecDeque};
+use std::sync::Mutex;
+
+use super::c07::rig::*;
+use super::common::{self, Ctx};
+use crate::cookiestash::CookieStash;
+use crate::cookiestash::verif_probe::gc as sp;
+use crate::source::ProtocolVersion;
+
+// ------------------------------------------------------------------------------ part A
+#[derive(Clone, Copy, PartialEq, Eq, Debug, Hash)]
+enum Op {
+    Get,
+    Store(usize),
+}
+fn op_str(o: &Op) -> String {
+    match o {
+        Op::Get => "g".into(),
+        Op::Store(n) => format!("s{n}"),
+    }
+}
+fn parse_ops(s: &str) -> Option<Vec<Op>> {
+    if s.is_empty() {
+        return Some(vec![]);
+    }
+    s.split(',')
+        .map(|t| if t == "g" { Some(Op::Get) } else { t.strip_prefix('s')?.parse().ok().map(Op::Store) })
+        .collect()
+}
+
+fn tagged(tag: u64, size: usize) -> Vec<u8> {
+    let mut v = tag.to_be_bytes().to_vec();
+    if size < 8 {
+        v.truncate(size);
+    } else {
+        v.resize(size, 0xA5);
+    }
+    v
+}
+
+/// Run `ops` on a fresh stash next to the model; returns the first discrepancy and the
+/// final ring state.
+fn run_ops(ops: &[Op]) -> (Option<(String, String)>, (usize, usize)) {
+    let mut stash = CookieStash::default();
+    let mut model: VecDeque<Vec<u8>> = VecDeque::new();
+    let mut yielded: HashSet<Vec<u8>> = HashSet::new();
+    let mut tag = 0u64;
+    let mut bad = None;
+    for (i, op) in ops.iter().enumerate() {
+        let mut fail = |class: &str, what: String| {
+            if bad.is_none() {
+                bad = Some((class.to_string(), format!("step {i} ({}): {what}", op_str(op))));
+            }
+        };
+        match op {
+            Op::Store(n) => {
+                tag += 1;
+                let c = tagged(tag, *n);
+                stash.store(c.clone());
+                model.push_back(c);
+                if model.len() > 8 {
+                    model.pop_front();
+                }
+            }
+            Op::Get => {
+                let got = stash.get();
+                let want = model.pop_front();
+                if got != want {
+                    fail(
+                        "C13:not-oldest-first",
+                        format!("get() = {:?}, oldest held cookie is {:?}", got.as_ref().map(|c| common::hex(&c[..c.len().min(8)])), want.as_ref().map(|c| common::hex(&c[..c.len().min(8)]))),
+                    );
+                }
+                if let Some(c) = got {
+                    if c.len() >= 8 && !yielded.insert(c.clone()) {
+                        fail("C13:cookie-reused", format!("cookie {} yielded twice", common::hex(&c[..8])));
+                    }
+                }
+            }
+        }
+        let held = sp::fifo(&stash);
+        if held.len() > 8 || held != model.iter().cloned().collect::<Vec<_>>() {
+            fail(
+                "C13:stash-contents",
+                format!("stash holds {} cookies {:?}, model {:?}", held.len(), held.iter().map(|c| common::hex(&c[..c.len().min(8)])).collect::<Vec<_>>(), model.iter().map(|c| common::hex(&c[..c.len().min(8)])).collect::<Vec<_>>()),
+            );
+        }
+        if stash.len() != model.len() || stash.gap() as usize != 8 - model.len() || stash.is_empty() != model.is_empty() {
+            fail("C13:stash-contents", format!("len()={} gap()={} but {} cookies are held", stash.len(), stash.gap(), model.len()));
+        }
+        if sp::dead_slot_bytes(&stash) != 0 {
+            fail("C13:stash-contents", format!("{} bytes of consumed/evicted cookies still kept in unused slots", sp::dead_slot_bytes(&stash)));
+        }
+    }
+    (bad, sp::ring(&stash))
+}
+
+fn part_a(ctx: &Ctx) {
+    // A1: BFS over ring states, representative history per state
+    let sizes = [0usize, 9, 104, 1024];
+    let mut ops_all = vec![Op::Get];
+    ops_all.extend(sizes.iter().map(|s| Op::Store(*s)));
+    let mut seen: BTreeMap<(usize, usize), Vec<Op>> = BTreeMap::new();
+    seen.insert((0, 0), vec![]);
+    let mut frontier = vec![vec![]];
+    let mut tr = 0u64;
+    let mut depth = 0;
+    while !frontier.is_empty() {
+        let mut next = Vec::new();
+        for h in &frontier {
+            for op in &ops_all {
+                let mut h2: Vec<Op> = h.clone();
+                h2.push(*op);
+                let (bad, ring) = run_ops(&h2);
+                tr += 1;
+                if let Some((class, what)) = bad {
+                    ctx.violation(&class, what, format!("A|{}", h2.iter().map(op_str).collect::<Vec<_>>().join(",")));
+                }
+                if !seen.contains_key(&ring) {
+                    seen.insert(ring, h2.clone());
+                    next.push(h2);
+                }
+            }
+        }
+        frontier = next;
+        depth += 1;
+    }
+    ctx.add("states", seen.len() as u64);
+    ctx.add("transitions", tr);
+    ctx.set("a1_ring_states", seen.len() as u64);
+    ctx.set("a1_bfs_depth", depth);
+    // A2: all sequences
+    let (n2, n4) = if ctx.quick() { (14usize, 7usize) } else { (18, 10) };
+    let full = Mutex::new((0u64, 0u64, 0u64)); // overflow stores, empty gets, sequences
+    for (alpha, n) in [(vec![Op::Get, Op::Store(9)], n2), (vec![Op::Get, Op::Store(0), Op::Store(9), Op::Store(1024)], n4)] {
+        for len in 1..=n {
+            let total = common::pow(alpha.len(), len);
+            common::par_for(total, 4096, |x| {
+                let w = common::word_of(x, alpha.len(), len);
+                let ops: Vec<Op> = w.iter().map(|i| alpha[*i]).collect();
+                let (bad, _) = run_ops(&ops);
+                if let Some((class, what)) = bad {
+                    ctx.violation(&class, what, format!("A|{}", ops.iter().map(op_str).collect::<Vec<_>>().join(",")));
+                }
+                // vacuity: does the sequence overflow the ring / read from empty?
+                let mut held = 0i32;
+                let (mut of, mut eg) = (0u64, 0u64);
+                for o in &ops {
+                    match o {
+                        Op::Store(_) => {
+                            if held == 8 {
+                                of += 1
+                            } else {
+                                held += 1
+                            }
+                        }
+                        Op::Get => {
+                            if held == 0 {
+                                eg += 1
+                            } else {
+                                held -= 1
+                            }
+                        }
+                    }
+                }
+                let mut f = full.lock().unwrap();
+                f.0 += of;
+                f.1 += eg;
+                f.2 += 1;
+                drop(f);
+                if of > 0 && eg > 0 {
+                    ctx.distinct(common::hash_of(&("A", &w, alpha.len())));
+                }
+            });
+            ctx.add("transitions", total * len as u64);
+            ctx.add("evaluations", total);
+        }
+    }
+    let f = full.lock().unwrap();
+    ctx.set("a2_sequences", f.2);
+    ctx.set("a2_stores_into_full_stash", f.0);
+    ctx.set("a2_gets_from_empty_stash", f.1);
+}
+
+// ------------------------------------------------------------------------------ part B
+#[derive(Clone, Copy, PartialEq, Eq, Debug)]
+enum Ans {
+    /// no answer arrives
+    Lost,
+    /// whatever the real server answers
+    Server,
+    /// authenticated answer built by the harness: k tagged cookies of `size` bytes
+    Harness(usize, usize),
+}
+fn ans_str(a: &Ans) -> String {
+    match a {
+        Ans::Lost => "L".into(),
+        Ans::Server => "S".into(),
+        Ans::Harness(k, s) => format!("H{k}x{s}"),
+    }
+}
+fn parse_ans(s: &str) -> Option<Ans> {
+    match s {
+        "L" => Some(Ans::Lost),
+        "S" => Some(Ans::Server),
+        _ => {
+            let (k, z) = s.strip_prefix('H')?.split_once('x')?;
+            Some(Ans::Harness(k.parse().ok()?, z.parse().ok()?))
+        }
+    }
+}
+
+struct ReqView {
+    cookie: Vec<u8>,
+    cookie_body_len: usize,
+    placeholders: Vec<usize>,
+    len: usize,
+    slot: usize,
+}
+
+/// Byte-level view of an NTS request.
+fn view(rig: &Rig, req: &[u8]) -> Result<ReqView, String> {
+    let (fields, end) = walk(req, 48);
+    if end != req.len() {
+        return Err(format!("trailing bytes after extension fields at {end} of {}", req.len()));
+    }
+    let cookies: Vec<&Field> = fields.iter().filter(|f| f.ty == T_COOKIE).collect();
+    if cookies.len() != 1 {
+        return Err(format!("{} cookie fields in one request", cookies.len()));
+    }
+    if fields.iter().filter(|f| f.ty == T_UID).count() != 1 {
+        return Err("no single unique identifier field".into());
+    }
+    let auth_off = fields.iter().find(|f| f.ty == T_AUTH).map(|f| f.off).ok_or("no authenticator")?;
+    if open_at(&*rig.c2s, req, auth_off).is_none() {
+        return Err("authenticator does not verify under C2S".into());
+    }
+    if cookies[0].off > auth_off || fields.iter().any(|f| f.ty == T_PLACEHOLDER && f.off > auth_off) {
+        return Err("cookie or placeholder after the authenticator".into());
+    }
+    Ok(ReqView {
+        cookie: cookies[0].body.clone(),
+        cookie_body_len: cookies[0].body.len(),
+        placeholders: fields.iter().filter(|f| f.ty == T_PLACEHOLDER).map(|f| f.body.len()).collect(),
+        len: req.len(),
+        slot: pad4(cookies[0].len),
+    })
+}
+
+type CapTable = BTreeMap<(bool, usize), BTreeMap<(usize, usize), (String, usize, usize)>>;
+
+struct BOut {
+    violations: Vec<(String, String)>,
+    sends: u64,
+    resets_empty: u64,
+    resets_other: u64,
+    accepted: u64,
+    evictions: u64,
+    transitions: u64,
+}
+
+async fn run_b(cfg: Cfg, fill: usize, seq: &[Ans], caps: Option<&Mutex<CapTable>>) -> BOut {
+    let v5 = cfg.v5();
+    let mut rig = Rig::nts(cfg, fill);
+    let mut model: VecDeque<Vec<u8>> = rig.key().cookies.unwrap_or_default().into();
+    let mut sent: HashSet<Vec<u8>> = HashSet::new();
+    let mut out = BOut { violations: vec![], sends: 0, resets_empty: 0, resets_other: 0, accepted: 0, evictions: 0, transitions: 0 };
+    let mut tag = 1u64 << 40;
+    let trace = format!("B|{}|{fill}|{}", cfg.name(), seq.iter().map(ans_str).collect::<Vec<_>>().join(","));
+    macro_rules! fail {
+        ($class:expr, $($arg:tt)*) => { out.violations.push(($class.to_string(), format!($($arg)*))) };
+    }
+    for (step, ans) in seq.iter().enumerate() {
+        out.transitions += 1;
+        let res = rig.timer();
+        let req = match res {
+            Out::Send(b, _) => b,
+            Out::Reset => {
+                if model.is_empty() {
+                    out.resets_empty += 1;
+                } else {
+                    let k = rig.key();
+                    if k.reach == 0 && k.tries >= 3 {
+                        out.resets_other += 1;
+                    } else {
+                        fail!("C13:reset-with-cookies", "poll {step}: Reset although {} cookies are held and the source is reachable", model.len());
+                    }
+                }
+                break;
+            }
+            Out::Panic(e) => {
+                fail!("C13:panic", "poll {step}: handle_timer panicked: {e}");
+                break;
+            }
+            o => {
+                fail!("C13:request-malformed", "poll {step}: unexpected timer result {o:?}");
+                break;
+            }
+        };
+        out.sends += 1;
+        if model.is_empty() {
+            fail!("C13:send-without-cookie", "poll {step}: a request was sent although no cookie is held");
+            break;
+        }
+        let v = match view(&rig, &req) {
+            Ok(v) => v,
+            Err(e) => {
+                fail!("C13:request-malformed", "poll {step}: {e}");
+                break;
+            }
+        };
+        let oldest = model.pop_front().unwrap();
+        let c = oldest.len();
+        // the cookie field carries the cookie followed by zero padding only
+        let carried_ok = v.cookie.len() >= c && v.cookie[..c] == oldest[..] && v.cookie[c..].iter().all(|b| *b == 0) && v.cookie.len() < c + 16;
+        if !carried_ok {
+            let pos = model.iter().position(|m| v.cookie.len() >= m.len() && v.cookie[..m.len()] == m[..]);
+            fail!(
+                "C13:not-oldest-first",
+                "poll {step}: request carries cookie {}.. which is {} (oldest held is {}..)",
+                common::hex(&v.cookie[..v.cookie.len().min(8)]),
+                match pos {
+                    Some(p) => format!("number {} in the queue", p + 2),
+                    None => "not a held cookie".to_string(),
+                },
+                common::hex(&oldest[..oldest.len().min(8)])
+            );
+        }
+        if !sent.insert(v.cookie[..c.min(v.cookie.len())].to_vec()) {
+            fail!("C13:cookie-reused", "poll {step}: cookie {}.. was already sent in an earlier request", common::hex(&v.cookie[..v.cookie.len().min(8)]));
+        }
+        let missing = 8 - model.len();
+        let requested = v.placeholders.len() + 1;
+        if requested > missing {
+            fail!("C13:request-count", "poll {step}: asks for {requested} new cookies but only {missing} are missing ({} held after taking one)", model.len());
+        }
+        if v.placeholders.iter().any(|p| *p != v.cookie_body_len) {
+            fail!("C13:request-malformed", "poll {step}: placeholder bodies {:?} differ from the cookie body length {}", v.placeholders, v.cookie_body_len);
+        }
+        if v.len > 1024 {
+            fail!("C13:request-malformed", "poll {step}: request is {} bytes", v.len);
+        }
+        if requested < missing {
+            let full = v.len + (missing - requested) * v.slot;
+            if full <= 512 {
+                fail!("C13:request-count", "poll {step}: asks for {requested} of {missing} missing cookies although the full request would only be {full} bytes (cookie {c} B)");
+            }
+        }
+        if let Some(t) = caps {
+            t.lock().unwrap().entry((v5, c)).or_default().entry((missing, requested)).or_insert((trace.clone(), v.len, v.slot));
+        }
+        // ---- the answer
+        let x = rig.exchanges.last().cloned().unwrap();
+        let datagram: Option<(Vec<u8>, Vec<Vec<u8>>)> = match ans {
+            Ans::Lost => None,
+            Ans::Server => x.genuine.clone().map(|g| {
+                // learn the delivered cookies with the harness-side walker
+                let cookies = open_all(&*rig.s2c, &g).into_iter().next().and_then(|(_, pt)| plaintext_cookies(&pt)).unwrap_or_default();
+                (g, cookies)
+            }),
+            Ans::Harness(k, size) => {
+                let mut p = if v5 {
+                    let mut h = hdr5(0, 4, 2, req[2], 1, [9; 8], x.id8);
+                    h.extend(ef5(T_UID, &x.uid.unwrap_or([0; 32])));
+                    h.extend(ef5(T_DRAFT, DRAFT));
+                    h
+                } else {
+                    let mut h = hdr4(0, 4, 4, 2, req[2], *b"GPS\0", [0; 8], x.id8);
+                    h.extend(ef4(T_UID, &x.uid.unwrap_or([0; 32]), 16));
+                    h
+                };
+                let mut pt = Vec::new();
+                let mut cookies = Vec::new();
+                for _ in 0..*k {
+                    tag += 1;
+                    let c = tagged(tag, *size);
+                    pt.extend(ef(v5, T_COOKIE, &c, 0));
+                    // v4 framing pads the body to a multiple of 4: the padded body is the cookie
+                    let mut stored = c.clone();
+                    if !v5 {
+                        stored.resize(pad4(stored.len()), 0);
+                    }
+                    cookies.push(stored);
+                }
+                let a = authenticator(&*rig.s2c, &p, &pt);
+                p.extend(a);
+                Some((p, cookies))
+            }
+        };
+        if let Some((d, cookies)) = datagram {
+            out.transitions += 1;
+            let n0 = rig.log_len();
+            let acts = rig.incoming(&d);
+            let accepted = rig.log_from(n0).iter().any(|l| l.starts_with("meas"));
+            if accepted {
+                out.accepted += 1;
+                for c in cookies {
+                    model.push_back(c);
+                    if model.len() > 8 {
+                        model.pop_front();
+                        out.evictions += 1;
+                    }
+                }
+            } else if matches!(ans, Ans::Harness(..)) {
+                fail!("C13:machinery", "poll {step}: harness-built authenticated answer was not accepted ({acts:?})");
+                break;
+            }
+        }
+        let k = rig.key();
+        let held = k.cookies.clone().unwrap_or_default();
+        if held != model.iter().cloned().collect::<Vec<_>>() {
+            fail!(
+                "C13:stash-contents",
+                "after poll {step} + {}: stash holds {:?}, expected the newest <= 8 undelivered cookies {:?} (first 8 bytes each)",
+                ans_str(ans),
+                held.iter().map(|c| common::hex(&c[..c.len().min(8)])).collect::<Vec<_>>(),
+                model.iter().map(|c| common::hex(&c[..c.len().min(8)])).collect::<Vec<_>>()
+            );
+            break;
+        }
+        let obs = rig.src.observe("x".into(), crate::ClockId(7)).nts_cookies;
+        if obs != Some(model.len()) {
+            fail!("C13:stash-contents", "after poll {step}: observable nts_cookies = {obs:?}, {} held", model.len());
+        }
+    }
+    out
+}
+
+fn sequences(choices: &[Ans], polls: usize) -> u64 {
+    common::pow(choices.len(), polls)
+}
+
+fn part_b(ctx: &Ctx) {
+    let quick = ctx.quick();
+    let caps: Mutex<CapTable> = Mutex::new(BTreeMap::new());
+    let mut plans: Vec<(Cfg, Vec<Ans>, usize, &str)> = Vec::new();
+    let base: Vec<Ans> = [Ans::Lost, Ans::Server].into_iter().chain((0..=9).map(|k| Ans::Harness(k, 104))).collect();
+    let sized: Vec<Ans> = [Ans::Lost, Ans::Server]
+        .into_iter()
+        .chain([16usize, 40, 90, 168, 300, 700].into_iter().flat_map(|s| [1usize, 3, 8, 9].into_iter().map(move |k| Ans::Harness(k, s))))
+        .collect();
+    let (p_main, p_512, p_sized) = if quick { (3, 2, 2) } else { (5, 4, 3) };
+    for pv in [ProtocolVersion::V4, ProtocolVersion::V5] {
+        plans.push((Cfg { pv, k512: false }, base.clone(), p_main, "main"));
+        plans.push((Cfg { pv, k512: true }, base.clone(), p_512, "k512"));
+        plans.push((Cfg { pv, k512: false }, sized.clone(), p_sized, "sizes"));
+    }
+    for (cfg, choices, polls, label) in &plans {
+        let per_fill = sequences(choices, *polls);
+        let total = per_fill * 8;
+        let stats = Mutex::new((0u64, 0u64, 0u64, 0u64, 0u64, 0u64));
+        common::par_for(total, 64, |i| {
+            let fill = (i / per_fill) as usize + 1;
+            let w = common::word_of(i % per_fill, choices.len(), *polls);
+            let seq: Vec<Ans> = w.iter().map(|j| choices[*j]).collect();
+            let out = super::block_on_paused(run_b(*cfg, fill, &seq, Some(&caps)));
+            let trace = format!("B|{}|{fill}|{}", cfg.name(), seq.iter().map(ans_str).collect::<Vec<_>>().join(","));
+            for (class, what) in &out.violations {
+                ctx.violation(class, format!("[{} fill {fill}] {what}", cfg.name()), trace.clone());
+            }
+            let mut s = stats.lock().unwrap();
+            s.0 += out.sends;
+            s.1 += out.resets_empty;
+            s.2 += out.resets_other;
+            s.3 += out.accepted;
+            s.4 += out.evictions;
+            s.5 += out.transitions;
+            drop(s);
+            if out.accepted > 0 {
+                ctx.distinct(common::hash_of(&trace));
+            }
+            if i % 9973 == 11 {
+                ctx.sample(format!("{trace}: {} requests, {} answers accepted, {} cookies evicted", out.sends, out.accepted, out.evictions));
+            }
+        });
+        let s = stats.lock().unwrap();
+        ctx.add("evaluations", total);
+        ctx.add("transitions", s.5);
+        ctx.add("b_histories", total);
+        ctx.add("b_requests_parsed", s.0);
+        ctx.add("b_reset_stash_empty", s.1);
+        ctx.add("b_reset_unreachable", s.2);
+        ctx.add("b_answers_accepted", s.3);
+        ctx.add("b_cookies_evicted_over_8", s.4);
+        ctx.add(&format!("b_histories.{}.{label}", cfg.name()), total);
+    }
+    // ---- structural check of the size cap: requested == min(missing, cap(version, cookie length))
+    let caps = caps.into_inner().unwrap();
+    let mut table = String::new();
+    let mut prev: BTreeMap<bool, (usize, usize)> = BTreeMap::new();
+    for ((v5, c), pairs) in &caps {
+        let capped: BTreeSet<usize> = pairs.iter().filter(|((m, r), _)| r < m).map(|((_, r), _)| *r).collect();
+        let max_seen = pairs.keys().map(|(_, r)| *r).max().unwrap_or(0);
+        let cap = capped.iter().next().copied();
+        if capped.len() > 1 {
+            let (t, _, _) = pairs.iter().find(|((m, r), _)| r < m).map(|(_, v)| v.clone()).unwrap();
+            ctx.violation("C13:request-count", format!("cookie {c} B, v5={v5}: the request count is cut to different values {capped:?} for the same packet geometry"), t);
+        }
+        if let Some(cap) = cap {
+            for ((m, r), (t, _, _)) in pairs {
+                if *r != (*m).min(cap) {
+                    ctx.violation("C13:request-count", format!("cookie {c} B, v5={v5}: asked for {r} with {m} missing, but the size cap observed elsewhere is {cap}"), t.clone());
+                }
+            }
+            if let Some((pc, pcap)) = prev.get(v5) {
+                if cap > *pcap {
+                    ctx.violation("C13:request-count", format!("v5={v5}: size cap {cap} for {c}-byte cookies exceeds cap {pcap} for shorter {pc}-byte cookies"), pairs.values().next().unwrap().0.clone());
+                }
+            }
+            prev.insert(*v5, (*c, cap));
+        }
+        ctx.inc("b_cap_table_rows");
+        table.push_str(&format!(
+            "{}:{}B->{} ",
+            if *v5 { "v5" } else { "v4" },
+            c,
+            match cap {
+                Some(x) => format!("cap{x}"),
+                None => format!("uncapped(max{max_seen})"),
+            }
+        ));
+    }
+    ctx.note("size_cap_table", table.trim());
+}
+
+fn replay(ctx: &Ctx, trace: &str) -> String {
+    let parts: Vec<&str> = trace.split('|').collect();
+    match parts.as_slice() {
+        ["A", ops] => {
+            let Some(ops) = parse_ops(ops) else { return "bad trace".into() };
+            let (bad, ring) = run_ops(&ops);
+            if let Some((class, what)) = &bad {
+                ctx.violation(class, what.clone(), trace.to_string());
+            }
+            format!("ring={ring:?} discrepancy={:?}", bad.map(|b| b.0))
+        }
+        ["B", cfg, fill, seq] => {
+            let (Some(cfg), Ok(fill)) = (Cfg::parse(cfg), fill.parse::<usize>()) else { return "bad trace".into() };
+            let Some(seq) = seq.split(',').filter(|s| !s.is_empty()).map(parse_ans).collect::<Option<Vec<_>>>() else { return "bad trace".into() };
+            let out = super::block_on_paused(run_b(cfg, fill, &seq, None));
+            for (class, what) in &out.violations {
+                ctx.violation(class, what.clone(), trace.to_string());
+            }
+            format!("sends={} accepted={} evicted={} violations={:?}", out.sends, out.accepted, out.evictions, out.violations)
+        }
+        _ => "bad trace".into(),
+    }
+}
+
+#[test]
+fn check() {
+    let ctx = Ctx::new("C13");
+    if let Some(t) = common::replay_trace() {
+        let a = replay(&ctx, &t);
+        let b = replay(&ctx, &t);
+        common::report_replay("C13", &a, &b, ctx.violation_count() > 0);
+        return;
+    }
+    ctx.rule(
+        "A1: BFS over CookieStash ring states (read, valid) to fixpoint with ops {get, store 0/9/104/1024 B}; A2: every op \
+         sequence over {get, store} up to length 14 (quick) / 18 and over {get, store 0 B, store 9 B, store 1024 B} up to \
+         length 7 / 10; B: NTS source (v4/v5, 256/512-bit keys) with initial fill 1..=8 x every sequence of 3 (quick) / 5 \
+         polls (2 / 4 for 512-bit keys, 2 / 3 for the size sweep) whose answers range over {lost, real server's answer, harness-built \
+         authenticated answer with k=0..=9 tagged cookies of 104 B; size sweep: k in {1,3,8,9} x {16,40,90,168,300,700} B}. \
+         distinct non-trivial = A2 sequence that both overflows the ring and reads from an empty stash, or B history with at \
+         least one accepted answer.",
+    );
+    ctx.assume("'limited only by packet size' is read as: requested = min(missing, cap) with cap a non-increasing function of the cookie length per protocol version, which must not reduce the count while the full request would be <= 512 bytes; the concrete (conservative) cap values are reported in the evidence, not judged");
+    ctx.assume("harness-built answers are authenticated with the crate's Cipher::encrypt under the session S2C key");
+    part_a(&ctx);
+    part_b(&ctx);
+    ctx.exhaustive(true);
+    ctx.finish();
+}
